@@ -10,7 +10,7 @@ void harness(void)
 {
 	IN(size_t, in_size); IN(size_t, in_used); IN(uintptr_t, in_refs); IN(int, in_flags); IN(int, in_has_buf);
 	IN(int, in_alloc_fails); IN(size_t, in_k); IN(size_t, in_j);
-	uint8_t in_content[BCAP], in_src[BCAP];
+	uint8_t in_content[BCAP], in_src[BCAP]; V_FILL(in_content); V_FILL(in_src);
 	MPT_STRUCT(array) h = MPT_ARRAY_INIT, o = MPT_ARRAY_INIT;
 	MPT_STRUCT(buffer) *b0 = &h_b0.b, *nb; const uint8_t *src_ = in_src;
 	uint8_t ok_ = 0, oj_ = 0; size_t i, oused, nused; int shared, immutable;
